@@ -260,6 +260,16 @@ def run(ck):
     # re-assigned (docs), so the re-assignment must re-open the pipes for every valid value, the current one included (R04.8, shared with C04)
     from . import c04
     n5 = c04.reconfigure(ck, agg)
+    # "by default the sender's own level" / "re-broadcasts to the next level": the level is what _begin() derives from the address, freshly
+    # on every call (R04.1/R04.6, shared with C04)
+    c04.begin_structure(ck, agg, net.NetNode(ck, "rf24_network", "RF24Network"))
+    # "received once by every other listening node of level L": after a node's own unicast, pipe 0 returns to the shared level address -
+    # the radio layer's pipe-0 discipline (R08.x, shared with C08)
+    from . import c08
+    from .radio import Radio
+    c08.run_for(ck, Radio(ck), agg)
+    # "multicast() to level L ...": a frame written with an explicit level as direction is transmitted to that level's address (R04.9)
+    c04.direction(ck, agg)
     agg.flush()
     ck.floor("R04.8", "re-assignment scenarios", n5, 4)
     ck.floor("R14.1", "level scenarios", n1, 15)
